@@ -224,6 +224,7 @@ type poolRun struct {
 	prop        string
 	firstSnap   bool
 	lastErr     error
+	everDead    map[int]bool
 	killedConns map[int]bool
 }
 
@@ -422,6 +423,7 @@ func (r *poolRun) call(a string, ping bool) {
 		}
 	}
 	_ = nserved
+	r.checkShutdownConsumed(a, err)
 	if err != nil && err != rpc.ErrDial && err != rpc.ErrShutdown {
 		r.e.fail("C14-unexpected-error", fmt.Sprintf("call to %s failed with %v", a, err), r.replay())
 	}
@@ -437,6 +439,38 @@ func (r *poolRun) call(a string, ping bool) {
 }
 
 func (r *poolRun) mustDial(a string) bool { return true }
+
+// deadFiled lists the pooled connections currently marked dead
+func (r *poolRun) deadFiled() map[int]bool {
+	out := map[int]bool{}
+	s := r.t.VerifSnapshot()
+	for _, m := range []map[string][]rpc.PersistConnSnapshot{s.Active, s.Idle} {
+		for _, l := range m {
+			for _, pc := range l {
+				if !pc.Alive {
+					out[r.idOf(pc)] = true
+				}
+			}
+		}
+	}
+	return out
+}
+
+// C14 oracle: a call that fails with ErrShutdown must have consumed a connection that was not
+// known dead before (a connection on which a call failed is never handed out again)
+func (r *poolRun) checkShutdownConsumed(a string, err error) {
+	now := r.deadFiled()
+	fresh := false
+	for id := range now {
+		if !r.everDead[id] {
+			fresh = true
+		}
+		r.everDead[id] = true
+	}
+	if err == rpc.ErrShutdown && !fresh {
+		r.e.fail("C14-dead-conn-handed-out", fmt.Sprintf("a call to %s failed with ErrShutdown although no live pooled connection died: a connection already marked dead was handed out", a), r.replay())
+	}
+}
 
 // usedConn guesses the connection a failed/ping call used from the snapshot:
 // the filed connection to a with the smallest age, or the one just marked dead.
@@ -612,12 +646,9 @@ func runPool(work, prop string) {
 	e := newEnv(prop, "pool", work)
 	defer e.finish()
 	var cases []string
-	n := 60
+	n := 150
 	if e.thorough() {
-		n = 1500
-	}
-	if os_getenv("VERIF_SEARCH") != "" {
-		n *= 3
+		n = 2000
 	}
 	for i := 0; i < n; i++ {
 		limits := [][2]int{{1, 1}, {2, 1}, {2, 2}, {3, 2}, {2, 5}, {0, 0}, {-1, 3}, {4, 4}, {3, 1}}[i%9]
@@ -628,6 +659,7 @@ func runPool(work, prop string) {
 		naddr := 1 + i%3
 		r := newPoolRun(e, prop, limits[0], limits[1], ka, it, naddr)
 		r.killedConns = map[int]bool{}
+		r.everDead = map[int]bool{}
 		r.script(i)
 		if !r.closed {
 			// end every history with Close so nothing leaks into the next one
